@@ -143,7 +143,9 @@ func lex(src string) ([]tok, error) {
 }
 
 func isIdentStart(c byte) bool {
-	return c == '_' || (c >= 'a' && c <= 'z') || (c >= 'A' && c <= 'Z')
+	// bytes >= 0x80 belong to multi-byte UTF-8 letters (Go identifiers such
+	// as αTransitions)
+	return c == '_' || (c >= 'a' && c <= 'z') || (c >= 'A' && c <= 'Z') || c >= 0x80
 }
 
 type parser struct {
